@@ -1,6 +1,7 @@
 //! pcsim — deterministic simulation with fault injection for arkworks-rs/poly-commit.
 //! See /verif/DESIGN.md. Exit codes: 0 = property held on everything explored (known findings
 //! are printed as KNOWN-FINDING lines), 1 = VIOLATION, 2 = harness error.
+pub mod adapters;
 pub mod domain;
 pub mod gen;
 pub mod props;
@@ -143,14 +144,25 @@ struct ReplayFile {
 }
 
 fn tier_runs(property: &str, tier: &str) -> (u64, f64) {
-    // (number of scenarios, wall-clock cap in seconds)
+    // (number of scenarios, wall-clock cap in seconds); quick is sized for roughly 15-30 s on 16 cores
     let quick: u64 = match property {
-        "C01" => 1200,
+        "C01" => 5000,
+        "C02" => 3000,
+        "C03" => 2500,
+        "C04" => 3000,
+        "C05" => 1500,
+        "C06" => 4000,
+        "C07" => 2500,
+        "C10" => 2000,
+        "C11" => 3000,
+        "C12" => 800,
+        "C17" => 6000,
+        "C18" => 800,
         _ => 800,
     };
     match tier {
-        "thorough" => (quick * 25, 1500.0),
-        _ => (quick, 240.0),
+        "thorough" => (quick * 30, 1500.0),
+        _ => (quick, 300.0),
     }
 }
 
